@@ -10,7 +10,8 @@ Open Scope Z_scope.
    ratio, the total size, the total ratio -- all with strict >, ratios as exact rationals, directory
    entries ignored except in the count.  Hypotheses: sizes of the non-directory entries are >= 0 and
    the limits are in the range where Python's float division decides the exact comparison
-   (0 <= byte limits < 2^53, ratio limits integer-valued >= 1; the defaults are, see Inst.v). *)
+   (limits_exact: byte limits >= 0, ratio limits m*2^e finite and >= 1, and
+   byte limit * 2^max(-e,0) < 2^53 for the ratio it feeds; the defaults are, see Inst.v). *)
 Theorem C11_rejects_iff :
   forall (L : limits) (es : list entry),
     limits_exact L = true -> sizes_nonneg (files es) = true ->
@@ -44,15 +45,45 @@ Example C11_hypotheses_satisfiable :
 Proof. vm_compute. repeat split; reflexivity. Qed.
 Print Assumptions C11_hypotheses_satisfiable.
 
-(* Python's  (a / b) > K  -- correctly rounded binary64 quotient compared with the limit -- is the
-   exact integer comparison  a > K * b  whenever 0 < a < 2^53, 0 < b and K is an integer >= 1;
-   the division cannot raise OverflowError there. *)
+(* Python's  (a / b) > L  -- correctly rounded binary64 quotient compared with the limit -- is the exact
+   rational comparison whenever 0 < a <= S, 0 < b and rl_exact S L: L = m*2^e is finite, >= 1 and
+   S * 2^max(-e,0) < 2^53  (integer limits: S < 2^53; 500.5 = 1001*2^-1: S < 2^52; ...).
+   The division cannot raise OverflowError there. *)
 Theorem C11_ratio_exact :
-  forall (a b : Z) (L : rlimit),
-    0 < b -> 0 < a < 2 ^ 53 -> rl_int_ge1 L = true ->
+  forall (a b S : Z) (L : rlimit),
+    0 < b -> 0 < a <= S -> rl_exact S L = true ->
     exists q, fdiv a b = Some q /\ ratio_gt q L = exceedsb a b L.
-Proof. exact fdiv_exact. Qed.
+Proof. exact fdiv_exact_gen. Qed.
 Print Assumptions C11_ratio_exact.
+
+Example C11_rl_exact_covers_dyadic :
+  rl_exact (2 ^ 30) (RFin 1001 (-1)) = true /\ rl_exact (2 ^ 32) (RFin 401 (-1)) = true
+  /\ rl_exact (2 ^ 30) (RFin 500 0) = true /\ rl_exact (2 ^ 30) (RFin 1 (-1)) = false
+  /\ limits_exact {| max_entries := 50000; max_total := 2 ^ 32; max_single := 2 ^ 30;
+                     max_total_ratio := RFin 401 (-1); max_entry_ratio := RFin 1001 (-1) |} = true.
+Proof. vm_compute. repeat split; reflexivity. Qed.
+Print Assumptions C11_rl_exact_covers_dyadic.
+
+(* One-sided soundness with NO bound on the sizes: whenever Python's  (a / b) > L  is true for a
+   limit L = m*2^e with m < 2^53 and e >= -1074 (every finite binary64 value, every int below 2^53,
+   negative and tiny limits included), the exact quotient a/b exceeds L. *)
+Theorem C11_float_gt_sound :
+  forall (a b m e : Z) (q : dyadic),
+    0 < a -> 0 < b -> m < 2 ^ 53 -> EMIN <= e ->
+    fdiv a b = Some q -> ratio_gt q (RFin m e) = true -> exceedsb a b (RFin m e) = true.
+Proof. exact fdiv_gt_sound. Qed.
+Print Assumptions C11_float_gt_sound.
+
+(* hence the guard never rejects a container that the exact predicate accepts: all byte limits (also
+   above 2^53), all non-negative sizes, all ratio limits that are binary64 values / ints < 2^53.
+   The converse for these limits is false (C11_rejects_iff_unrestricted_refuted below). *)
+Theorem C11_reject_sound_all_limits :
+  forall (L : limits) (es : list entry),
+    rl_repr (max_total_ratio L) = true -> rl_repr (max_entry_ratio L) = true ->
+    sizes_nonneg (files es) = true ->
+    (exists c, validate L es = Reject c) -> Bomb L es.
+Proof. exact reject_sound. Qed.
+Print Assumptions C11_reject_sound_all_limits.
 
 (* exceeds is the plain integer inequality for an integer-valued limit m*2^e *)
 Theorem C11_exceeds_int :
